@@ -9,6 +9,7 @@ import (
 	"math"
 	"os"
 	"runtime"
+	"strings"
 	"time"
 
 	"github.com/gogo/protobuf/proto"
@@ -144,6 +145,11 @@ func hgt(sym string, cur int64) int64 {
 }
 
 func rnd(sym string, cur int32) int32 {
+	if strings.HasPrefix(sym, "+") {
+		var n int32
+		fmt.Sscanf(sym[1:], "%d", &n)
+		return cur + n
+	}
 	switch sym {
 	case "cur":
 		return cur
@@ -260,6 +266,8 @@ type hostileMsg struct {
 	size int    // > 0: size on the wire of a message whose bytes are not materialised
 	must string // non-empty: the message is invalid beyond argument, the sender must be dropped
 	big  string // non-empty: the message carries an attacker-chosen large size (description)
+	adv  bool   // a status response that advertises blocks above the node's store
+	vr   int32  // a vote: the round it names
 }
 
 func (s *sim) genHostile(rng *simcore.RNG) simcore.Op {
@@ -301,7 +309,7 @@ func (s *sim) genFamily(rng *simcore.RNG, f string) simcore.Op {
 	}
 	switch f {
 	case "cons":
-		k := []string{"nrs", "nvb", "prop", "pol", "part", "vote", "hasvote", "maj23", "vsb"}[rng.Weighted([]int{14, 9, 9, 7, 8, 10, 6, 6, 8})]
+		k := []string{"nrs", "nvb", "prop", "pol", "part", "vote", "hasvote", "maj23", "vsb", "vburst"}[rng.Weighted([]int{14, 9, 9, 7, 8, 10, 6, 6, 8, 5})]
 		op["k"] = k
 		op["h"] = pick(rng, heightSyms)
 		op["r"] = pick(rng, roundSyms)
@@ -363,6 +371,19 @@ func (s *sim) genFamily(rng *simcore.RNG, f string) simcore.Op {
 			op["addr"] = []string{"val2", "val2", "val2", "val2", "val2", "node", "rand", "rand", "short", "empty"}[rng.Intn(10)]
 			op["idx"] = []string{"val2", "val2", "val2", "val2", "val2", "node", "n", "big", "max", "neg"}[rng.Intn(10)]
 			op["ts"] = []string{"now", "now", "zero", "future"}[rng.Intn(4)]
+		case "vburst":
+			// many well-formed votes of one peer for the current height, each for another
+			// future round: with signatures that do not verify, or with validator 2's
+			op["h"], op["r"] = "cur", "cur"
+			delete(op, "wch")
+			op["n"] = []int{6, 25, 60}[rng.Intn(3)]
+			op["r0"] = rng.Range(2, 5)
+			op["type"] = []int{1, 2}[rng.Intn(2)]
+			op["sig"] = "junk"
+			if s.cfg.Bool("byz") && rng.Bool(0.35) {
+				op["sig"] = "val2"
+			}
+			op["bid"] = []string{"rand", "nil", "prop"}[rng.Intn(3)]
 		case "hasvote":
 			op["type"] = vtype()
 			op["idx"] = pick(rng, sizeSyms)
@@ -409,12 +430,16 @@ func (s *sim) genFamily(rng *simcore.RNG, f string) simcore.Op {
 		case "sresp":
 			op["base"] = pick(rng, heightSyms)
 			if s.syncing() {
+				// While the pool is running, which requester gets which peer must not be left to
+				// the scheduler: one advertising peer (several would make the pool's map-order
+				// peer choice visible) and few enough heights that its 20 request slots are
+				// never contended (hundreds of requesters waking at the same instant).
+				hv := hgt(op.Str("h"), 1)
 				if s.advertiser() {
-					if rng.Bool(0.6) {
-						op["base"], op["h"] = "0", []string{"cur+1", "cur+5", "cur+5", "far"}[rng.Intn(4)]
+					if rng.Bool(0.6) || hv > 6 {
+						op["base"], op["h"] = "0", []string{"cur+1", "cur+5", "cur+5"}[rng.Intn(3)]
 					}
-				} else if hv := hgt(op.Str("h"), 1); hv > 0 {
-					// several advertising peers make the pool's peer choice (Go map order) visible
+				} else if hv > 0 {
 					op["h"] = "0"
 					op["base"] = "0"
 				}
@@ -462,6 +487,9 @@ func (s *sim) genFamily(rng *simcore.RNG, f string) simcore.Op {
 		case "mut":
 			fams := []string{"cons", "cons", "cons", "mem", "evid", "bc", "ss", "pex"}
 			bf := fams[rng.Intn(len(fams))]
+			if bf == "bc" && s.syncing() {
+				bf = "evid" // (a bit-flipped status response could advertise any height, see "sresp")
+			}
 			base := s.genFamily(rng, bf)
 			base["f"] = bf
 			base["seed"] = rng.Intn(1 << 30)
@@ -673,6 +701,16 @@ func (s *sim) buildHostile(op simcore.Op, pm *peerM) *hostileMsg { return s.buil
 
 // buildHostileX: dry = called by the generator to look at the message, nothing is recorded.
 func (s *sim) buildHostileX(op simcore.Op, pm *peerM, dry bool) *hostileMsg {
+	if op.Str("f") == "cons" && op.Str("k") == "vburst" {
+		// (the generator looks at the first vote of the burst)
+		v := simcore.Op{"f": "cons", "k": "vote", "h": "cur", "r": fmt.Sprintf("+%d", op.Int("r0")), "type": op.Int("type"), "bid": op.Str("bid"),
+			"sig": op.Str("sig"), "addr": "val2", "idx": "val2", "ts": "now", "seed": op.Int("seed")}
+		h := s.buildHostileX(v, pm, dry)
+		if h != nil {
+			h.kind = "cons.vburst"
+		}
+		return h
+	}
 	c := s.ctx()
 	r := simcore.NewRNG(uint64(op.Int("seed"))*0x9e3779b97f4a7c15 + 1)
 	f, k := op.Str("f"), op.Str("k")
@@ -910,6 +948,7 @@ func (s *sim) buildHostileX(op simcore.Op, pm *peerM, dry bool) *hostileMsg {
 			case "future":
 				ts = ts.Add(1000 * time.Hour)
 			}
+			hm.vr = R
 			v := &tmproto.Vote{Type: typ, Height: H, Round: R, BlockID: bid.ToProto(), Timestamp: ts, ValidatorAddress: addr, ValidatorIndex: idx}
 			sg, w := s.sign(op.Str("sig"), signBytesOf(func() []byte { return types.VoteSignBytes(s.chainID, v) }), r)
 			must(w != "", w)
@@ -1023,6 +1062,7 @@ func (s *sim) buildHostileX(op simcore.Op, pm *peerM, dry bool) *hostileMsg {
 			B := hgt(op.Str("base"), c.H)
 			must(H < 0 || B < 0, "negative height or base")
 			must(B > H, "base above height")
+			hm.adv = hm.must == "" && H > s.storeHeight()
 			msg = &bcproto.StatusResponse{Base: B, Height: H}
 		case "bresp":
 			var pb *tmproto.Block
@@ -1250,6 +1290,7 @@ func (s *sim) buildHostileX(op simcore.Op, pm *peerM, dry bool) *hostileMsg {
 				bz[fl[i]*len(bz)/1000] ^= 1 << uint(fl[i+1]&7)
 			}
 			hm.bz = bz
+			hm.adv, hm.vr = b.adv, b.vr
 			hm.kind = "raw.mut:" + b.kind
 			if len(bz) > s.capOf(hm.ch) {
 				must(true, "message larger than the channel's receive capacity")
@@ -1277,7 +1318,7 @@ func (s *sim) syncing() bool { return s.mode == "fastsync" && !s.consensusRunnin
 // may advertise blocks (Next only).
 func (s *sim) advertiser() bool {
 	lp := s.livePeers(true)
-	return len(lp) > 0 && lp[0] == s.genPeer
+	return len(lp) > 0 && lp[0] == s.genPeer && !s.honestAdv
 }
 
 func detHash(parts ...interface{}) []byte {
@@ -1288,9 +1329,12 @@ func detHash(parts ...interface{}) []byte {
 // plainBlock is the well-formed block hostile peers serve for height h: a pure function of the
 // node's state (header fields as the chain would have them, no transactions).
 func (s *sim) plainBlock(h int64, lastCommit *types.Commit, lastID types.BlockID) *types.Block {
+	return s.plainBlockAt(h, lastCommit, lastID, s.node.GenesisDoc().GenesisTime.Add(time.Duration(h)*time.Second))
+}
+
+func (s *sim) plainBlockAt(h int64, lastCommit *types.Commit, lastID types.BlockID, ts time.Time) *types.Block {
 	st := s.conS.GetState()
 	b := types.MakeBlock(h, nil, lastCommit, nil)
-	ts := s.node.GenesisDoc().GenesisTime.Add(time.Duration(h) * time.Second)
 	b.Header.Populate(st.Version.Consensus, st.ChainID, ts, lastID, st.Validators.Hash(), st.NextValidators.Hash(),
 		types.HashConsensusParams(st.ConsensusParams), st.AppHash, st.LastResultsHash, s.valKey.PubKey().Address())
 	return b
@@ -1343,6 +1387,80 @@ func (s *sim) servedBlock(h int64, depth int) (*types.Block, types.BlockID) {
 	}
 	b := s.plainBlock(h, lc, lastID)
 	return b, s.blockIDOf(b)
+}
+
+// honestBlock is the block the honest peer serves for height h while the node (at height 0)
+// block-syncs: height 1 is the valid first block of the chain, height 2 carries the full commit
+// for it (the honest network holds every validator's precommit, the node's own included).
+func (s *sim) honestBlock(h int64) *types.Block {
+	st := s.conS.GetState()
+	if s.storeHeight() != 0 || st.LastBlockHeight != 0 {
+		return nil
+	}
+	b1 := s.plainBlockAt(st.InitialHeight, types.NewCommit(0, 0, types.BlockID{}, nil), types.BlockID{}, st.LastBlockTime)
+	switch h {
+	case st.InitialHeight:
+		return b1
+	case st.InitialHeight + 1:
+		id1 := s.blockIDOf(b1)
+		ts := st.LastBlockTime.Add(time.Second)
+		sigs := make([]types.CommitSig, s.genVals.Size())
+		for i, key := range map[int32]crypto.PrivKey{s.nodeIdx: s.valKey, s.val2Idx: s.val2Key} {
+			v := s.val2Vote(tmproto.PrecommitType, b1.Height, 0, id1, ts, key, key.PubKey().Address(), i)
+			sigs[i] = types.CommitSig{BlockIDFlag: types.BlockIDFlagCommit, ValidatorAddress: v.ValidatorAddress, Timestamp: ts, Signature: v.Signature}
+		}
+		return s.plainBlockAt(h, types.NewCommit(b1.Height, 0, id1, sigs), id1, ts)
+	}
+	return nil
+}
+
+// hostileAdvertising: a connected hostile peer has advertised blocks to the pool.
+func (s *sim) hostileAdvertising() bool {
+	for _, idx := range s.order {
+		if pm := s.peers[idx]; pm.hostile && pm.live && s.advertised[idx] {
+			return true
+		}
+	}
+	return false
+}
+
+// voteRounds is the structural oracle on the node's vote bookkeeping: beyond the rounds the
+// state machine itself opened (0 .. its round+1) a height's vote set may hold at most two
+// "catch-up" rounds per peer that sent votes for this height.
+func (s *sim) voteRounds(ctx string) {
+	if !s.consensusRunning() {
+		return
+	}
+	rs := s.conS.GetRoundState()
+	if rs.Votes == nil {
+		return
+	}
+	if rs.Height != s.voteH {
+		s.voteH, s.voteSenders, s.voteNamed = rs.Height, map[int]bool{}, map[int32]bool{}
+	}
+	// rounds beyond the state machine's own exist only as peers' catch-up rounds; the simulator
+	// knows every round a vote it delivered has named
+	own := int(rs.Votes.Round()) + 1
+	extra := 0
+	for r := range s.voteNamed {
+		if r > rs.Votes.Round() && rs.Votes.Prevotes(r) != nil {
+			extra++
+		}
+	}
+	rounds := make([]struct{}, own+extra)
+	bound := own + 2*len(s.voteSenders)
+	if len(rounds) > s.maxRounds {
+		s.maxRounds = len(rounds)
+	}
+	if extra > 0 {
+		s.env.Count("probe.catchup_rounds_present")
+	}
+	if len(rounds) > bound {
+		if s.env.Report("C17", "vote-rounds-unbounded", "%s: the node tracks %d rounds of votes at height %d although its own round is %d (%d rounds of its own) and only %d peer(s) sent votes for this height (2 catch-up rounds each): votes that were refused still left their round behind", ctx, len(rounds), rs.Height, rs.Round, own, len(s.voteSenders)) {
+			panic(simStop{})
+		}
+		s.quarantineAll("vote-rounds")
+	}
 }
 
 // chainBlock: the block a hostile peer sends for height h. "cflag": entries of its LastCommit get
@@ -1483,7 +1601,7 @@ func (s *sim) honestDeliver(m proto.Message, ch byte, what string) bool {
 		s.mu.Lock()
 		reason := s.reasons[pm.idx]
 		s.mu.Unlock()
-		s.env.Fail("C17", "honest-peer-dropped", "the honest peer was disconnected after sending a valid %s: %s", what, reason)
+		s.env.Fail("C17", "honest-peer-dropped:"+what, "the honest peer was disconnected after sending a valid %s: %s", what, reason)
 	}
 	return true
 }
@@ -1622,6 +1740,34 @@ func (s *sim) honestOp(op simcore.Op) bool {
 			s.env.Fail("C17", "wedged-evidence-reactor", "valid duplicate-vote evidence for height %d from the honest peer is not pending in the evidence pool", eh)
 		}
 		s.env.Count("probe.honest_evidence_accepted")
+	case "hstatus":
+		// the honest peer has the first two blocks of the chain
+		if !s.syncing() || s.storeHeight() != 0 || s.honestAdv || s.hostileAdvertising() {
+			return false
+		}
+		st := s.conS.GetState()
+		s.honestAdv = true
+		if !s.honestDeliver(&bcproto.StatusResponse{Base: st.InitialHeight, Height: st.InitialHeight + 1}, 0x40, "hstatus") {
+			return true
+		}
+	case "hblock":
+		// answer the oldest block request the node sent to the honest peer
+		h, ok := pm.sp.popReq()
+		if !ok {
+			return false
+		}
+		var m proto.Message = &bcproto.NoBlockResponse{Height: h}
+		if b := s.honestBlock(h); b != nil && s.syncing() {
+			pb, err := b.ToProto()
+			if err != nil {
+				panic(err)
+			}
+			m = &bcproto.BlockResponse{Block: pb}
+			s.env.Count("probe.honest_block_served")
+		}
+		if !s.honestDeliver(m, 0x40, "hblock") {
+			return true
+		}
 	case "snapreq":
 		n0 := pm.sp.count("*statesync.SnapshotsResponse")
 		if !s.honestDeliver(&ssproto.SnapshotsRequest{}, 0x60, "snapreq") {
@@ -1701,6 +1847,12 @@ func (s *sim) finalChecks() {
 			e.Fail("C17", "receive-wedged", "a %s delivered by peer %d never returned from the reactor (%v of simulated time)", pm.pendKind, idx, time.Since(pm.pendAt))
 		}
 	}
+	// 2. the honest peer answers what it is still being asked for
+	for i := 0; i < 8 && s.honest.live && !s.honest.pending && s.honest.sp.pendingReqs() > 0; i++ {
+		s.honestOp(simcore.Op{"k": "hblock"})
+		s.checkFailures("final-hblock")
+	}
+	s.voteRounds("final")
 	// 3. honest traffic is still processed by every reactor
 	if s.honest.live && !s.honest.pending {
 		for i, k := range []string{"status", "tx", "nrs", "snapreq", "chunkreq", "pexreq", "vote", "evid"} {
